@@ -893,8 +893,10 @@ func (p *H265Payloader) Payload(mtu uint16, payload []byte) [][]byte { //nolint:
 
 				payloads = append(payloads, buf)
 			} else {
-				// write the nalu directly to the payload
-				payloads = append(payloads, nalu)
+				// write an owned copy of the nalu to the payload (not a slice of the caller's buffer)
+				out := make([]byte, len(nalu))
+				copy(out, nalu)
+				payloads = append(payloads, out)
 			}
 		} else {
 			// construct an aggregation packet
